@@ -63,7 +63,7 @@ CellWYY(idx) == SumResp(LAMBDA k : IF InY(k, idx) THEN k.w * YOf(k.p, idx) * YOf
 
 \* numeric measures of a tensor cell as rationals; NaN = the server's {"?": -8}
 CellMean(idx) == Div(R(CellWY(idx)), R(CellWV(idx)))
-CellSum(idx)  == IF CellNV(idx) = 0 THEN NaN ELSE R(CellWY(idx))
+CellSum(idx)  == IF CellNV(idx) = 0 /\ SumNaN THEN NaN ELSE R(CellWY(idx))
 \* the library passes stddev and median through untouched; any cell-determined
 \* number will do.  "stddev": the population variance of y in the cell;
 \* "median": twice the mean plus one.
